@@ -12,6 +12,7 @@ import Driver.LazyProto
 import Driver.LocksProto
 import Driver.OpenLockProto
 import Driver.C10Proto
+import Driver.C09Proto
 open AnyDB
 
 partial def loopWith {σ : Type} (h : IO.FS.Stream) (out : IO.FS.Stream) (handle : σ → String → σ × String) (s : σ) : IO Unit := do
@@ -29,6 +30,7 @@ def main (args : List String) : IO UInt32 := do
   | ["vec"] => loopWith stdin stdout VecProto.handle (VecM.V.init .raw 8 0); return 0
   | ["compute"] => loopWith stdin stdout ComputeProto.handle { m := "", w := 0, f := 0 }; return 0
   | ["codec"] => loopWith stdin stdout CodecProto.handle (); return 0
+  | ["c09"] => loopWith stdin stdout C09Proto.handle (); return 0
   | ["c10"] => loopWith stdin stdout C10Proto.handle (); return 0
   | ["openlock"] => loopWith stdin stdout OpenLockProto.handle OpenLock.Dir.init; return 0
   | ["locks"] => loopWith stdin stdout LocksProto.handle (); return 0
